@@ -134,7 +134,7 @@ func init() {
 			return s
 		},
 		Run:  c07Run,
-		Rule: "matrix: 93 subjects (61 injected value kinds incl. nil pointer/map/slice/func and empty HTML, unknown identifier, literals, field/index/helper/user-function results) x 14 syntactic contexts (if, silent if, else-if, !, !!, && and || on either side, if(!x), if(x && 1), inside for / fn / helper block): every context must report the truth value given by the statement's table (which makes them agree with each other). chains: if + k else-if (+ else), k<=3, every assignment of condition values from {true,false,0,\"\",\"a\",nil} through a counting helper plus the bare conditions nope / !nope (unknown identifier), blocks as text, as return, or with every second block empty, at top level, inside for / fn / helper block and evaluated twice (loop of two iterations, function called twice): exactly the first truthy block (or else / nothing) is rendered and conditions 0..j are evaluated once each, none after j. ill-formed chains (a second else, or an else if, after the else block): an error or the textually first truthy block, never a later part. Non-trivial: all cases.",
+		Rule: "matrix: 93 subjects (61 injected value kinds incl. nil pointer/map/slice/func and empty HTML, unknown identifier, literals, field/index/helper/user-function results) x 14 syntactic contexts (if, silent if, else-if, !, !!, && and || on either side, if(!x), if(x && 1), inside for / fn / helper block): every context must report the truth value given by the statement's table (which makes them agree with each other). chains: if + k else-if (+ else), k<=3, every assignment of condition values from {true,false,0,\"\",\"a\",nil} through a counting helper plus the bare conditions nope / !nope (unknown identifier), blocks as text, as return, or with every second block empty, at top level, inside for / fn / helper block and evaluated twice (loop of two iterations, function called twice): exactly the first truthy block (or else / nothing) is rendered and conditions 0..j are evaluated once each, none after j. rebinding: a name tested while unknown, then bound (loop variable / key, parameter, let and assignment, helper Set, BlockWith child, partial data), then unknown again - every test follows the current binding. ill-formed chains (a second else, or an else if, after the else block): an error or the textually first truthy block, never a later part. Non-trivial: all cases.",
 		Bound: func(th bool) string {
 			return "matrix complete; chains with up to 3 else-if branches, 8 condition values, 6 placements, 2 block styles"
 		},
@@ -166,6 +166,39 @@ func c07Run(t *engine.T, shard string) {
 					return fmt.Sprintf("truthy=%v", s.truthy), nil
 				})
 			}
+		}
+		// a name's truth value follows its current binding: unknown -> bound (loop variable, parameter, let, helper Set) -> unknown again
+		rebind := []struct{ name, src, want string }{
+			{"loop variable", `<%= if (v9) { %>T<% } else { %>F<% } %><%= !v9 %>|<%= for (v9) in one { %><%= if (v9) { %>T<% } else { %>F<% } %><%= !v9 %><%= v9 && true %><%= v9 || false %><% } %>|<%= if (v9) { %>T<% } else { %>F<% } %><%= !v9 %>`, "Ftrue|Tfalsetruetrue|Ftrue"},
+			{"loop key", `<%= !k9 %>|<%= for (k9, v) in two { %><%= if (k9 == 1 && k9) { %>T<% } else if (k9) { %>t<% } else { %>F<% } %><% } %>|<%= !k9 %>`, "true|tT|true"},
+			{"parameter", `<%= !a9 %><%= a9 || false %>|<% let f = fn(a9) { if (a9) { return "T" } else if (!a9) { return "F" } return "?" } %><%= f(1) %><%= f(false) %><%= f("") %><%= f("x") %>|<%= !a9 %>`, "truefalse|TFFT|true"},
+			{"let", `<%= if (z9) { %>T<% } else { %>F<% } %><% let z9 = 1 %><%= if (z9) { %>T<% } else { %>F<% } %><%= !z9 %><% z9 = false %><%= if (z9) { %>T<% } else if (!z9) { %>t<% } %>`, "FTfalset"},
+			{"helper Set", `<%= if (hs9) { %>T<% } else { %>F<% } %><% seths() %><%= if (hs9) { %>T<% } else { %>F<% } %><%= !hs9 %><%= hs9 && true %>`, "FTfalsetrue"},
+			{"block scope", `<%= !b9 %><%= withb() { %><%= if (b9) { %>T<% } else { %>F<% } %><%= !b9 %><% } %><%= !b9 %>`, "true{Tfalse}true"},
+			{"partial data", `<%= !p9 %><%= partial("pp9", {"p9": 1}) %><%= !p9 %>`, "true[Tfalse]true"},
+			{"nested loops re-using the name", `<%= for (v9) in two { %><%= for (w) in one { %><%= if (v9) { %>T<% } %><% } %><% } %><%= !v9 %><%= for (v9) in one { %><%= !v9 %><% } %>`, "TTtruefalse"},
+		}
+		for _, c := range rebind {
+			c := c
+			t.Case("rebinding "+c.name+" "+q(c.src), true, func() (string, *engine.Fail) {
+				var log []int
+				ctx := c07Context(&log)
+				ctx.Set("seths", func(help plush.HelperContext) string { help.Set("hs9", 1); return "" })
+				ctx.Set("withb", func(help plush.HelperContext) (template.HTML, error) {
+					ch := help.New()
+					ch.Set("b9", "B")
+					s, err := help.BlockWith(ch)
+					return template.HTML("{" + s + "}"), err
+				})
+				ctx.Set("partialFeeder", func(name string) (string, error) {
+					return `[<%= if (p9) { %>T<% } else { %>F<% } %><%= !p9 %>]`, nil
+				})
+				out, err := Render(c.src, ctx)
+				if err != nil || out != c.want {
+					return "", engine.Failf("mismatch", "expected %q, got %q / %v", c.want, out, err)
+				}
+				return "rebinding", nil
+			})
 		}
 		// ill-formed chains: nothing may follow the else block. Rendering them must not pick a block out of
 		// textual order (an error, or the first truthy block in textual order, are both fine).
